@@ -19,6 +19,7 @@ PROFILE = {
     "max_delay_ticks": 32,
     "attempt_timeout": 0.1,
     "multi_call": (1, 2),
+    "handler_time": 0.3,
 }
 ENTRIES = C.CALL_ENTRIES + ["Retry.context.call", "AsyncRetry.context.call", "Policy.context.call", "AsyncPolicy.context.call", "decorator.call", "adecorator.call"]
 
